@@ -8,10 +8,10 @@ use std::path::{Path, PathBuf};
 
 fn content(patchy: bool) -> Vec<u8> {
     if !patchy {
-        return sym::any_bytes("content", "bytes", 0, sym::bound(2, 4));
+        return sym::any_bytes("content", "bytes", 0, sym::bound(1, 3));
     }
     let mut c: Vec<u8> = Vec::new();
-    let n = sym::choose("ntok", 4);
+    let n = sym::choose("ntok", sym::bound(3, 4));
     let mut i = 0;
     while i < n {
         match sym::choose("tok", 3) {
@@ -37,10 +37,18 @@ pub fn h_verify() {
     sym::fs_add_file(&path, &data);
     // what the distinfo records
     let a = sym::choose("alg", 6);
-    let other = (a + 1 + sym::choose("other", 5)) % 6;
-    let basis: Vec<u8> = match sym::choose("recorded-of", 3) {
-        0 => data.clone(),
-        1 => content(is_patch),
+    let other = (a + 1 + if sym::bound(0, 1) == 1 { sym::choose("other", 5) } else { data.len() % 5 }) % 6;
+    // scenarios: (recorded content, recorded hash, recorded size)
+    let sc = sym::choose("scenario", 5);
+    let basis: Vec<u8> = match sc {
+        0 | 3 => data.clone(),
+        1 => {
+            if is_patch {
+                b"x\n$NetBSD$\n".to_vec()
+            } else {
+                sym::any_bytes("content2", "bytes", 0, 1)
+            }
+        }
         _ => {
             let mut d = data.clone();
             d.push(b'!');
@@ -48,12 +56,13 @@ pub fn h_verify() {
         }
     };
     let filtered_basis = if is_patch { spec_patch_filter(&basis) } else { basis.clone() };
-    let recorded_hash = if sym::choose("hash-kind", 3) == 0 { sym::any_str("junk", "hex:30-39,61-66", 0, 2) } else { sym::digest_hex(a, &filtered_basis) };
-    let recorded_size: Option<u64> = match sym::choose("size-kind", 4) {
-        0 => None,
-        1 => Some(data.len() as u64),
-        2 => Some(data.len() as u64 + 1),
-        _ => Some(sym::any_u8("size") as u64),
+    let recorded_hash = if sc == 3 { sym::any_str("junk", "hex:30-39,61-66", 0, 2) } else { sym::digest_hex(a, &filtered_basis) };
+    let recorded_size: Option<u64> = match sc {
+        0 => Some(data.len() as u64),
+        1 => Some(data.len() as u64 + 1),
+        2 => None,
+        3 => Some(sym::any_u8("size") as u64),
+        _ => Some(data.len() as u64),
     };
     let mut di = Distinfo::new();
     let e = Entry::new(name, name, vec![Checksum::new(alg_of(a), recorded_hash.clone())], recorded_size);
